@@ -189,6 +189,66 @@ def check_md5(ctx, exe, root):
         ctx.violation("C14: md5.cpp disagrees with md5sum: %r" % (bad[:3],), {"cases": [repr(b) for b in bad[:10]]}, found_input=True)
 
 
+def multi_file_check(ctx, exe, root, F, U, FA):
+    """several files in ONE --replace invocation: each file's (file, backup, md5) triple must be what the protocol's
+    reference model gives for that file alone (the backup decision of one file must not depend on another file)"""
+    FB = F[("b", U)]
+    # per-file start states: (content, backup, recorded-last-output) ; None = absent
+    states = {"user-text": (U, None, None),
+              "formatted-by-a, recorded": (FA, U, FA),
+              "copy of a formatted file, nothing recorded": (FA, None, None),
+              "formatted-by-b, recorded": (FB, U, FB),
+              "user edit after a run": (U, FB, FA)}
+    names = ["a.c", "b.c", "c.c"]
+    cases = []
+    keys = list(states)
+    for cfg in ("a", "b"):
+        for s1 in keys:
+            for s2 in keys:
+                cases.append((cfg, [s1, s2]))
+        cases.append((cfg, [keys[1], keys[2], keys[0]]))
+        cases.append((cfg, [keys[3], keys[2], keys[2]]))
+    bad = 0
+    d = os.path.join(root, "multi")
+    for ci, (cfg, sts) in enumerate(cases):
+        shutil.rmtree(d, ignore_errors=True)
+        os.makedirs(os.path.join(d, "d"))
+        for k, v in CFGS.items():
+            with open(os.path.join(d, k + ".cfg"), "w") as f:
+                f.write(v)
+        expect = []
+        for nm, st in zip(names, sts):
+            content, bak, last = states[st]
+            base = os.path.join(d, "d", nm)
+            open(base, "wb").write(content)
+            if bak is not None:
+                open(base + ".unc-backup~", "wb").write(bak)
+            if last is not None:
+                open(base + ".unc-backup.md5~", "wb").write(inject.md5_line(last, nm))
+            sp = Spec(content, bak, last).run(F, cfg)
+            expect.append((sp.file, sp.g, inject.md5_line(sp.last, nm)))
+        r = subprocess.run([exe, "-q", "-c", cfg + ".cfg", "-l", "C", "--replace"] + ["d/" + nm for nm in names[:len(sts)]],
+                           cwd=d, stdin=subprocess.DEVNULL, stdout=subprocess.PIPE, stderr=subprocess.PIPE)
+        ctx.case("multi:%s:%s" % (cfg, sts))
+        for nm, st, ex in zip(names, sts, expect):
+            base = os.path.join(d, "d", nm)
+            rd = lambda p: open(p, "rb").read() if os.path.exists(p) else None
+            got = (rd(base), rd(base + ".unc-backup~"), rd(base + ".unc-backup.md5~"))
+            if r.returncode != 0 or got != ex:
+                bad += 1
+                which = [w for w, a, b in zip(("file", "backup", "md5"), got, ex) if a != b]
+                ctx.violation("several files in one --replace run (cfg %s, files in states %s): %s of %s (state '%s') is not what a run on that "
+                              "file alone leaves (exit %d)" % (cfg, sts, "/".join(which) or "exit status", nm, st, r.returncode),
+                              {"cfg": CFGS[cfg], "states": {n: {"file": c13.show(states[s][0]), "backup": c13.show(states[s][1]),
+                                                                "md5_of": c13.show(states[s][2])} for n, s in zip(names, sts)},
+                               "cmd": "uncrustify -q -c cfg -l C --replace d/a.c d/b.c [d/c.c]",
+                               "got": show_triple(got), "expected": show_triple(ex)}, key=None, found_input=True)
+                break
+    shutil.rmtree(d, ignore_errors=True)
+    ctx.oblige("several files in one --replace run: every file's triple equals the reference model's for that file alone (%d invocations)"
+               % len(cases), bad == 0, "oracle", "%d" % bad)
+
+
 def _run(ctx, exe, root, thorough):
     check_md5(ctx, exe, root)
     seedv = ctx.rng.randrange(1000)
@@ -219,6 +279,7 @@ def _run(ctx, exe, root, thorough):
     ctx.oblige("contents: cfg n changes nothing, cfg a and cfg b differ, a is idempotent",
                all(F[("n", c)] == c for c in seen) and F[("a", U)] != F[("b", U)] and F[("a", FA)] == FA, "setup")
     ctx.count("universe-contents", len(seen))
+    multi_file_check(ctx, exe, root, F, U, FA)
     ftable = ";".join("%d:%s>%s" % (CFG_ID[cfg], inject.hexl(c), inject.hexl(out)) for (cfg, c), out in F.items() if out != c) or "-"
 
     maxlen = 6 if thorough else 4
